@@ -115,3 +115,56 @@ def test_c14_newest_revision_and_redirect_chain(tmp_path):
     assert not r["viol"], r["viol"]
     r = p.run_redirects(("chain-flat", {"A": "B", "B": "C"}, ["C"]))
     assert not r["viol"], r["viol"]
+
+
+# ---------------------------------------------------------------- wave 4 findings
+def _expand(text, pages=None):
+    from mwlib.parser.expander import Expander
+    from mc.props.c01 import LangDB
+    return Expander(text, pagename="P", wikidb=LangDB("en", pages or {})).expandTemplates()
+
+
+def test_c01_self_closing_inputbox_parses():
+    from mwlib.parser.refine import uparser
+    tree = uparser.parse_string(title="T", raw="a<inputbox/>b", lang="en")
+    assert [c.__class__.__name__ for c in tree.allchildren()].count("TagNode") == 1
+
+
+@pytest.mark.parametrize("text,want", [("{{#switch:1|01=B|1=A}}", "B"), ("{{#switch:01|1=b|01=a}}", "b"),
+                                        ("{{#switch:01|1={{{x}}}|01=b}}", "{{{x}}}"), ("{{#switch:02|02=lit|{{{q|2}}}=dyn}}", "lit")])
+def test_c04_switch_takes_the_first_matching_case_in_source_order(text, want):
+    assert _expand(text) == want
+
+
+@pytest.mark.parametrize("fn", ["#expr", "#ifexpr"])
+def test_c03_pipe_form_does_not_swallow_the_recursion_limit(fn):
+    import signal
+
+    def alarm(*a):
+        raise KeyboardInterrupt("expansion did not terminate")
+    signal.signal(signal.SIGALRM, alarm)
+    signal.alarm(20)
+    try:
+        body = "{{%s|{{a}}}}" % fn
+        assert isinstance(_expand("{{a}}b", {"A": body + body}), str)
+    finally:
+        signal.alarm(0)
+
+
+@pytest.mark.parametrize("opener,closer", [("{{lc:", "}}"), ("{{a|", "}}"), ("{{{", "}}}"), ("{{#if:", "}}")])
+def test_c03_deeply_nested_braces_do_not_raise(opener, closer):
+    assert isinstance(_expand(opener * 400 + "x" + closer * 400), str)
+
+
+def test_c08_block_after_two_images_is_kept_by_tabularize_images():
+    from mwlib.writers.rl import writer as rlwriter
+    from mwlib.writers.rl.customflowables import Figure
+    w = rlwriter.RlWriter.__new__(rlwriter.RlWriter)
+    w._scale_images = lambda figs: figs
+
+    class F(Figure):
+        def __init__(self):
+            pass
+    f1, f2, block = F(), F(), object()
+    out = w.tabularizeImages([f1, f2, block])
+    assert block in out and len(out) == 2, out
